@@ -82,7 +82,7 @@ class World:
         return self.keys[ck]
 
 
-def encrypt_once(world, alg, enc, curve, ser, header_extra=None):
+def encrypt_once(world, alg, enc, curve, ser, header_extra=None, variant=0):
     from joserfc import jwe
     ref, pub, priv, sref, spriv, spub = world.get(alg, enc, curve)
     hdr = {"alg": alg, "enc": enc}     # a fresh header object with equal values
@@ -92,8 +92,15 @@ def encrypt_once(world, alg, enc, curve, ser, header_extra=None):
         tok = jwe.encrypt_compact(hdr, b"same plaintext", pub, algorithms=jweplan.ALL_NAMES, sender_key=spriv)
     else:
         cls = jwe.FlattenedJSONEncryption if ser == "flattened" else jwe.GeneralJSONEncryption
-        o = cls({"enc": enc}, b"same plaintext")
-        o.add_recipient({"alg": alg}, pub)
+        if variant % 3 == 0:
+            o = cls({"enc": enc}, b"same plaintext")
+            o.add_recipient({"alg": alg}, pub)
+        elif variant % 3 == 1:
+            o = cls({"alg": alg, "enc": enc}, b"same plaintext")       # alg protected, recipient without a header of its own
+            o.add_recipient(None, pub)
+        else:
+            o = cls({"alg": alg, "enc": enc}, b"same plaintext")
+            o.add_recipient(key=pub)                                     # header argument left out altogether
         tok = jwe.encrypt_json(o, None, algorithms=jweplan.ALL_NAMES, sender_key=spriv)
     return tok
 
@@ -219,7 +226,13 @@ def run_history(h, n_per_config, f, ctx=None):
     for i, (alg, enc, curve, ser) in enumerate(steps):
         if h["reseed_every"] and h["host_seed"] is not None and i % h["reseed_every"] == 0:
             random.seed(h["host_seed"])
-        tok = encrypt_once(world, alg, enc, curve, ser)
+        try:
+            tok = encrypt_once(world, alg, enc, curve, ser, variant=i + h["order_seed"])
+        except Exception as e:
+            # every configuration of a history encrypts fine on its own (they are all valid): failing only after other encryptions
+            # means state was carried over from an earlier call
+            f[f"C18:encryption-fails-in-history:{type(e).__name__}"] = f"encryption #{i} ({alg}, {enc}, {ser}) raised {type(e).__name__}: {e} after earlier encryptions"
+            continue
         records.append(((alg, enc, curve, ser), observe(world, alg, enc, curve, tok)))
         if ctx is not None:
             ctx.count("encryptions")
@@ -257,6 +270,22 @@ def child_main(argv):
     keys = [OctKey.generate_key(128).as_dict()["k"] for _ in range(3)] + [ECKey.generate_key("P-256").as_dict()["d"] for _ in range(2)] + \
            [OKPKey.generate_key("Ed25519").as_dict()["d"] for _ in range(2)]
     print(json.dumps({"records": out, "keys": keys, "findings": f}))
+
+
+def run_forked(h, n_per_config, k=4):
+    """The parent encrypts once per configuration, then forks k children which all run the same history (pre-fork server model):
+    whatever entropy the library buffered before the fork must not be handed out again in several children."""
+    from harness.fork import in_child
+    world = World()
+    cfgs = [(CONFIGS[i][0], CONFIGS[i][1], curve, ser) for i, curve, ser in h["configs"]]
+    for (alg, enc, curve, ser) in cfgs:
+        encrypt_once(world, alg, enc, curve, ser)
+
+    def child():
+        f = {}
+        recs = run_history(dict(h, host_seed=None, reencrypt=False), n_per_config, f)
+        return [[list(cfg), {k_: (v.hex() if isinstance(v, bytes) else v) for k_, v in obs.items()}] for cfg, obs in recs]
+    return [{"records": in_child(child), "keys": [], "findings": {}} for _ in range(k)]
 
 
 def run_cross_process(h, n_per_config, k=4):
@@ -354,7 +383,8 @@ def run_shard(ctx, spec):
     elif spec["part"] == "cross":
         def body(h):
             h = dict(h, host_seed=h["host_seed"] if h["host_seed"] is not None else 3)
-            outs = run_cross_process(h, 6 if quick else 30)
+            forked = h["order_seed"] % 2 == 1
+            outs = run_forked(h, 6 if quick else 30) if forked else run_cross_process(h, 6 if quick else 30)
             f = {}
             for o in outs:
                 f.update(o["findings"])
@@ -378,8 +408,9 @@ def run_shard(ctx, spec):
             ctx.count("cross-process-values", n)
             ctx.case(("cross", json.dumps(h["configs"])), cls="cross-process", sample={"processes": len(outs), "values": n, "history": h}, n=n)
             for k, w in f.items():
-                ctx.finding(k, w, {"history": h, "n": 6 if quick else 30, "cross": True})
-        drive(ctx, "cross", history, body, 2 if quick else 8)
+                ctx.finding(k + (":after-fork" if forked and "across-processes" in k else ""), w, {"history": h, "n": 6 if quick else 30, "cross": True, "forked": forked})
+            ctx.count("cross:forked" if forked else "cross:spawned")
+        drive(ctx, "cross", history, body, 4 if quick else 12)
     else:
         f = {}
         random.seed(5)
@@ -405,7 +436,7 @@ def replay(rec) -> dict:
         return f
     h = rec["history"]
     if rec.get("cross"):
-        outs = run_cross_process(h, rec["n"])
+        outs = run_forked(h, rec["n"]) if rec.get("forked") else run_cross_process(h, rec["n"])
         seen = {}
         for pi, o in enumerate(outs):
             f.update(o["findings"])
@@ -414,7 +445,7 @@ def replay(rec) -> dict:
                     if kind in obs and not (kind == "cek" and cfg[0] == "dir"):
                         v = json.dumps(obs[kind], sort_keys=True)
                         if (kind, v) in seen and seen[(kind, v)] != pi:
-                            f[f"C18:repeated-{kind}:across-processes"] = v[:80]
+                            f[f"C18:repeated-{kind}:across-processes" + (":after-fork" if rec.get("forked") else "")] = v[:80]
                         seen[(kind, v)] = pi
         return f
     try:
